@@ -74,7 +74,7 @@ func (c *ctx) argBounds() {
 			unknown := false
 			for h := 1; h <= 6; h++ {
 				ev := &lenEval{fc: fc, fd: fd, subject: subject, n: h, site: nn}
-				if !ev.feasible(conds) {
+				if !ev.feasible(conds) || !c.callersAdmit(fc, fd, se.X, h) {
 					continue
 				}
 				vals := ev.indexValues(idx, nn)
@@ -102,6 +102,68 @@ func (c *ctx) argBounds() {
 	if n == 0 {
 		c.s.Unk("G46", "index sites", "", "no index into the Args of a call expression found")
 	}
+}
+
+// callersAdmit: when the call expression whose Args are indexed is a parameter of fd, the argument
+// count h must also be feasible at one of fd's call sites (a guard placed in the caller, on the Args of
+// the expression it passes, protects the callee). No call site, or no test at a call site: admitted.
+func (c *ctx) callersAdmit(fc *fileCtx, fd *ast.FuncDecl, x ast.Expr, h int) bool {
+	info := fc.pkg.TypesInfo
+	o := astx.IdentObj(info, x)
+	if o == nil || fd.Type.Params == nil {
+		return true
+	}
+	pi, k := -1, 0
+	for _, f := range fd.Type.Params.List {
+		for _, nm := range f.Names {
+			if info.Defs[nm] == o {
+				pi = k
+			}
+			k++
+		}
+	}
+	fobj := info.Defs[fd.Name]
+	if pi < 0 || fobj == nil {
+		return true
+	}
+	sites, admitted := 0, false
+	for _, cf := range c.files {
+		if cf.pkg != fc.pkg {
+			continue
+		}
+		cf := cf
+		ast.Inspect(cf.file, func(n ast.Node) bool {
+			call, ok := n.(*ast.CallExpr)
+			if !ok || pi >= len(call.Args) {
+				return true
+			}
+			if fn := astx.Callee(info, call); fn == nil || types.Object(fn) != fobj {
+				return true
+			}
+			cfd := cf.funcDecl(call)
+			if cfd == nil {
+				return true
+			}
+			sites++
+			var subj ast.Expr
+			ast.Inspect(cfd, func(m ast.Node) bool {
+				if s, ok := m.(*ast.SelectorExpr); ok && subj == nil && s.Sel.Name == "Args" && astx.Same(info, s.X, call.Args[pi]) {
+					subj = s
+				}
+				return subj == nil
+			})
+			if subj == nil {
+				admitted = true
+				return true
+			}
+			ev := &lenEval{fc: cf, fd: cfd, subject: subj, n: h, site: call}
+			if ev.feasible(cf.par.Known(call, cfd)) {
+				admitted = true
+			}
+			return true
+		})
+	}
+	return sites == 0 || admitted
 }
 
 func isASTCallExpr(t types.Type) bool {
